@@ -29,6 +29,7 @@ STATE_COUNTERS = {
 CONFIG_FIELDS = {'node_size_': 'node size is a property of the list, harmless in the source',
                  'block_size_': 'block size is configuration',
                  'min_alignment_': 'configuration', 'marker_': 'marker is only used together with stack_'}
+INTEGER_TYPES = ('unsigned long', 'std::size_t', 'size_t', 'unsigned int', 'unsigned char', 'unsigned short', 'long', 'int')
 LINK_HELPERS = ('xor_list_set', 'xor_list_change', 'xor_list_insert', 'list_set_next', 'xor_link_block', 'insert_chunks')
 
 
@@ -224,7 +225,23 @@ def check_coverage(run, db, cls, ops):
                 continue
             if not base_moved(fn, bt, fn.params):
                 missing.append('base ' + strip_ns(bt))
-        if missing:
+        # a scalar that is taken over on one path only (a conditional transfer) is not transferred
+        cond_missing = []
+        if kind in ('move-ctor', 'move-assign') and not missing:
+            scalars = [f['name'] for f in crec['fields'] if (f.get('t') in INTEGER_TYPES or f.get('pointer')) and not f.get('static')]
+            try:
+                S = [x for x in fwd.summarize(fn, db=db, roles={0: 'other'}, inline_pred=lambda a, c, t: False) if x.end == 'return']
+            except sym.PathLimit:
+                S = []
+            for F in scalars:
+                wrote = [('this.' + F) in x.fields or any(w[0] == 'this.' + F for w in x.writes) for x in S]
+                helper = [any(c[1].get('k') == 'call' and c[1].get('cls') == cls and c[1].get('short') not in ('operator=',) for c in x.calls) for x in S]
+                if any(wrote) and any(not w and not h for w, h in zip(wrote, helper)):
+                    cond_missing.append(F)
+        if cond_missing:
+            run.violation('R-MOVE.1', inst, fn.loc, 'taken over from the source on some paths only: %s (a conditional transfer leaves the new owner with its own old value '
+                          'for memory that was handed out under the source\'s)' % ', '.join(cond_missing), site=dict(site, role='coverage: conditional ' + ','.join(cond_missing)))
+        elif missing:
             run.violation('R-MOVE.1', inst, fn.loc, 'not transferred: %s' % ', '.join(missing),
                           site=dict(site, role='coverage: ' + ','.join(missing)))
         else:
@@ -508,9 +525,6 @@ def check_self_registration(run, db, cls, ops):
                           site={'function': '%s::%s' % (ct, kind), 'role': 'own address registered again'})
         else:
             run.ok('R-MOVE.8', inst, fn.loc, 'registers its own address again through %s' % ', '.join(sorted(reg)))
-
-
-INTEGER_TYPES = ('unsigned long', 'std::size_t', 'size_t', 'unsigned int', 'unsigned char', 'unsigned short', 'long', 'int')
 
 
 def check_swap_exchanges(run, db, cls, ops):
